@@ -432,6 +432,12 @@ LIMITERS = {
     "pent_acw": [(0.2, 0.2), (0.8, 0.15), (0.9, 0.6), (0.5, 0.9), (0.15, 0.7)],
     "hex_cw": [(0.2, 0.3), (0.15, 0.7), (0.5, 0.9), (0.85, 0.7), (0.8, 0.3), (0.5, 0.1)],
     "two_points": [(0.2, 0.2), (0.8, 0.8)],
+    # open contours whose first and last point share R (a straight inner column listed bottom to
+    # top) or share Z, and one that repeats its first point at the end as EFIT files do
+    "quad_acw_ends_share_R": [(0.2, 0.15), (0.8, 0.15), (0.8, 0.85), (0.2, 0.85)],
+    "hex_acw_ends_share_R": [(0.25, 0.2), (0.5, 0.1), (0.8, 0.3), (0.85, 0.7), (0.5, 0.9), (0.25, 0.75)],
+    "pent_cw_ends_share_Z": [(0.2, 0.3), (0.15, 0.7), (0.5, 0.9), (0.85, 0.7), (0.8, 0.3)],
+    "quad_acw_closed": [(0.2, 0.15), (0.8, 0.15), (0.8, 0.85), (0.2, 0.85), (0.2, 0.15)],
 }
 
 
